@@ -273,7 +273,8 @@ def apply_tok(obj, t: int, nested_only: bool = False):
         else:
             obj.PhysiologicalRange[0].Upper = Decimal(50 + t)
     elif name in ('AlertConditionStateContainer', 'LimitAlertConditionStateContainer'):
-        obj.Presence = bool(t % 2)
+        # (every third token leaves the attribute out: its implied value - False - takes over from an explicit one)
+        obj.Presence = [True, None, False][t % 3]
         obj.ActualPriority = [pm_types.AlertConditionPriority.LOW, pm_types.AlertConditionPriority.HIGH][t % 2]
     elif name == 'AlertSystemStateContainer':
         obj.SelfCheckCount = 10 + t
